@@ -9,7 +9,7 @@ import codecgen as cg
 import serverlib as sl
 from common import coq_bytes, coq_eval, run_harness
 
-PRELUDE = ("From NW Require Import Base.Bytes Model.SchemaTypes Gen.Schema Model.Codec Model.Ids Model.Server Model.Link "
+PRELUDE = ("From NW Require Import Base.Bytes Model.SchemaTypes Gen.Schema Model.Codec Model.Ids Model.Server Model.Link Model.LinkConc "
            "Conf.CodecConf Conf.ServerConf Conf.LinkConf.\n")
 
 OPS = ["auth", "fwd-broadcast-payload", "fwd-event", "send-private-payload", "recv-private-payload"]
@@ -261,6 +261,108 @@ def link_monitor(case, ob):
     return v
 
 
+# ------------------------------------------------------------------ several requests in flight on one S2M link
+def gen_conc_link_histories(r, n):
+    """an established S2M link; 2-4 requests (distinct ids, distinct payloads) are written while the modulator
+    implementation keeps every call suspended; the calls are then answered in a random order with random verdicts.
+    Each reply must carry the id of the request whose call was answered (Model/LinkConc.v: replies in completion order)."""
+    cases = []
+    for _ in range(n):
+        cfg = link_cfg(r)
+        cfg.update({"ops": list(OPS), "max_inflight": 10, "max_message": 1024, "max_payload": 1024})
+        ops = [{"t": "send", "bytes": sl.frame("S2M_CONNECT", [("version", 1), ("secret", cfg["secret"] or None), ("heartbeat_interval", 0)]).hex(), "script": []}]
+        reqs = []
+        k = r.randint(2, 4)
+        for j in range(1, k + 1):
+            rid = r.choice([3, 10, 77, 1000, 65000]) + j * 100000
+            kindq = r.choice(["fbp", "fbp", "fbp", "auth", "spp", "event"])
+            if kindq == "fbp":
+                pl = bytes([64 + j]) * r.choice([1, 5, 40])
+                frm, ch = "user%d@localhost" % j, "c%d" % j
+                data = sl.frame("S2M_FORWARD_BROADCAST_PAYLOAD", [("id", rid), ("from", frm), ("channel", ch), ("length", len(pl))], pl)
+                call = "McFbp %s %s %s" % (coq_bytes(frm.encode()), coq_bytes(ch.encode()), coq_bytes(pl))
+                outcome = r.choice(["ok", "invalid", "err", {"altered": (b"ALT%d" % j).hex()}])
+            elif kindq == "auth":
+                tok = "tok-%d" % j
+                data = sl.frame("S2M_AUTH", [("id", rid), ("token", tok)])
+                call = "McAuth %s" % coq_bytes(tok.encode())
+                outcome = r.choice([{"auth_success": (b"user%d" % j).hex()}, "auth_fail", {"auth_continue": (b"nonce%d" % j).hex()}, "err"])
+            elif kindq == "spp":
+                pl = bytes([96 + j]) * 3
+                frm = "user%d@localhost" % j
+                data = sl.frame("S2M_MOD_DIRECT", [("id", rid), ("from", frm), ("length", len(pl))], pl)
+                call = "McSpp %s %s" % (coq_bytes(frm.encode()), coq_bytes(pl))
+                outcome = r.choice(["ok", "invalid", "err"])
+            else:
+                nid = "user%d@localhost" % j
+                data = sl.frame("S2M_FORWARD_EVENT", [("id", rid), ("channel", "!c1@localhost"), ("kind", "MEMBER_LEFT"), ("nid", nid), ("owner", False)])
+                call = "McEvent %s %s %s false" % (coq_bytes(b"MEMBER_LEFT"), coq_bytes(b"!c1@localhost"), coq_bytes(nid.encode()))
+                outcome = r.choice(["ok", "err"])
+            ops.append({"t": "send", "bytes": data.hex(), "script": [{"park": j}], "req": j})
+            reqs.append({"j": j, "id": rid, "call": call, "outcome": outcome, "kind": kindq})
+        order = r.sample(reqs, len(reqs))
+        for q in order:
+            ops.append({"t": "release", "id": q["j"], "outcome": q["outcome"], "rel": q["j"]})
+        cases.append({"kind": "s2m", "cfg": cfg, "ops": ops, "reqs": reqs, "order": [q["j"] for q in order], "conc": True})
+    return cases
+
+
+def conc_conf_terms(cases, obs):
+    terms = []
+    for c, ob in zip(cases, obs):
+        if "ops" not in ob:
+            terms.append("false")
+            continue
+        byj = {q["j"]: q for q in c["reqs"]}
+        evs = ["LReq %d (%s)" % (q["id"], q["call"]) for q in c["reqs"]]
+        evs += ["LAns %d (%s)" % (byj[j]["id"], sl.script_term([byj[j]["outcome"]])[1:-1]) for j in c["order"]]
+        frames, good = [], True
+        for op, o in list(zip(c["ops"], ob["ops"]))[1:]:
+            ft, ok = frames_term(o["frames"])
+            good = good and ok and not o.get("leftover") and o.get("ended_panicked") is not True
+            frames.append(ft[1:-1])
+        wire = ";".join(f for f in frames if f)
+        closed = ob["ops"][-1]["closed"]
+        terms.append("conc_conf %s 0 [%s] [%s] %s" % (lcfg_term(c["cfg"]), ";".join(evs), wire, "true" if closed else "false") if good else "false")
+    return terms
+
+
+def conc_monitor(case, ob):
+    """C08/C09/C17 on the implementation alone: the frame written when call j is answered carries the id of request j and
+    the verdict given for request j (a verdict must never travel under another request's id)"""
+    v = []
+    if "ops" not in ob:
+        return [("C08", "setup error " + str(ob)[:200], 0)]
+    byj = {q["j"]: q for q in case["reqs"]}
+    for t, (op, o) in enumerate(zip(case["ops"], ob["ops"])):
+        if o.get("ended_panicked") is True:
+            v.append(("PANIC", "link connection task panicked", t))
+        if "rel" not in op:
+            continue
+        q = byj[op["rel"]]
+        tag = {"fbp": "C08", "auth": "C09", "spp": "C17", "event": "C18"}[q["kind"]]
+        ids = [sl.frame_get(f, "id") for f in o["frames"] if "undecodable" not in f and sl.frame_get(f, "id") is not None]
+        others = [i for i in ids if i != q["id"]]
+        if others:
+            v.append((tag, "the answer to request id=%d (%s, verdict %s) was written under the id of another request in flight: %s" % (
+                q["id"], q["kind"], q["outcome"] if isinstance(q["outcome"], str) else sorted(q["outcome"])[0], others), t))
+        elif not ids and not o["closed"]:
+            v.append((tag, "the modulator answered request id=%d but nothing was written back" % q["id"], t))
+        for f in o["frames"]:
+            if "undecodable" in f or sl.frame_get(f, "id") != q["id"]:
+                continue
+            n = sl.frame_name(f)
+            if q["kind"] == "fbp" and n == "S2M_FORWARD_BROADCAST_PAYLOAD_ACK":
+                valid = sl.frame_get(f, "valid")
+                want = q["outcome"] == "ok" or isinstance(q["outcome"], dict)
+                if bool(valid) != want:
+                    v.append(("C08", "request id=%d was answered valid=%s although the modulator said %s" % (q["id"], valid, q["outcome"]), t))
+            if q["kind"] == "auth" and n == "S2M_AUTH_ACK":
+                if bool(sl.frame_get(f, "succeeded")) != (isinstance(q["outcome"], dict) and "auth_success" in q["outcome"]):
+                    v.append(("C09", "authentication request id=%d answered succeeded=%s although the modulator said %s" % (q["id"], sl.frame_get(f, "succeeded"), q["outcome"]), t))
+    return v
+
+
 # ------------------------------------------------------------------ S2mClient cases
 def handshake_bytes(ops, max_message=1024, max_payload=1024, proto="TEST/1.0"):
     return sl.frame("S2M_CONNECT_ACK", [("application_protocol", proto), ("operations", ops or None), ("heartbeat_interval", 3600000),
@@ -426,6 +528,13 @@ def client_monitor(case, ob):
             if isinstance(res, dict) and "auth_continue" in res:
                 if not (declared and mine and toks[0] == b"S2M_AUTH_ACK" and b"succeeded=false" in toks):
                     v.append(("C09", f"challenge reported although the reply was {line[:90]!r}", j))
+        if call["call"] == "spp" and res == "ok":
+            # C17: a client's direct message counts as accepted only on an S2M_MOD_DIRECT_ACK for THIS request saying valid=true
+            if not (declared and mine and toks[0] == b"S2M_MOD_DIRECT_ACK" and b"valid=true" in toks):
+                v.append(("C17", f"direct message reported as accepted although the modulator's reply was {line[:90]!r}", j))
+        if call["call"] == "event" and res == "ok":
+            if not (declared and mine and toks[0] == b"S2M_FORWARD_EVENT_ACK"):
+                v.append(("C18", f"event reported as forwarded although the modulator's reply was {line[:90]!r}", j))
     return v
 
 
